@@ -304,7 +304,10 @@ def r5(ctx):
         if fb_ is not ib:
             threaded = any((x.term.callee or "").endswith("::fold") for x in ib.calls()) and c.term.d["d"].is_local() and c.term.d["d"].local == 0
         else:
-            threaded = c.term.d["d"].is_local() and ib.local_name(c.term.d["d"].local) == "cto" and innermost_loop(ib, c.idx) is not None
+            lp_ = innermost_loop(ib, c.idx)
+            direct = c.term.d["d"].is_local() and ib.local_name(c.term.d["d"].local) == "cto"
+            via_tmp = any(st.dest.is_local() and ib.local_name(st.dest.local) == "cto" and lp_ is not None and b.idx in lp_[1] and mentions_call(ctx.sym(ib).rvalue_expr(st.rv), r"extract_measurements_inner::handle$") for b, si, st in ib.assigns())
+            threaded = lp_ is not None and (direct or via_tmp)
     ctx.check(acc_ok and threaded, "cto:fold", "headers are processed in order with the CTO as accumulator (%s)" % [expr_str(h[2]) for h in hcalls], ib.where(line=ib.line))
     # outstation side: the header object is the namesake of the event time's kind, and the same time becomes the header CTO
     sb = [b for b in prog.bodies.values() if re.search(r"EventWriter::start_new_header::\{closure#1\}$|EventWriter::start_new_header::\{closure#0\}$", b.path)]
